@@ -247,7 +247,15 @@ func run(c *Case) (msg string, nontrivial bool) {
 	if c.Single {
 		top = ws[0]
 	} else {
-		top = zerolog.MultiLevelWriter(ws...)
+		// the slice handed to MultiLevelWriter stays the caller's: reusing it afterwards (here: every
+		// entry replaced by a destination of another fan-out) must not retarget this one
+		arg := append([]io.Writer{}, ws...)
+		top = zerolog.MultiLevelWriter(arg...)
+		for i := range arg {
+			d := &decoyW{}
+			decoys = append(decoys, d)
+			arg[i] = d
+		}
 	}
 	l = zerolog.New(top)
 	sibling()
